@@ -151,7 +151,7 @@ class C16(core.Check):
         "Spline curves: through-points/ends/closest parameter are validator checks; their length is not additive between "
         "knots (known finding). Analytic curves: the polyline of one discretisation is exactly additive at its sample points and "
         "monotone (theorems, every sample count), additivity between arbitrary parameters only up to the re-sampling with 100 points "
-        "(2e-3, oracle); CircleCurve over the reals: chord sum <= arc length and closest parameter = the query's angle (theorems), the "
+        "(2e-3, oracle; for circles bounded by r (c-a) h^2/24 over the reals: theorem); CircleCurve over the reals: chord sum <= arc length and closest parameter = the query's angle (theorems), the "
         "minimiser's answer is validated against the closed-form distance to the circle; scipy's minimiser and spline interpolation stay oracles."
     )
 
